@@ -109,6 +109,14 @@ def finish(out: Outcome, level="model_checking", technique=""):
             open_keys[k["key"]] = k
     new = []
     known_hit = []
+    seen_keys = set()
+    uniq = []
+    for f in out.findings:  # one finding per role key (several harnesses may hit the same defect)
+        if f.key in seen_keys:
+            continue
+        seen_keys.add(f.key)
+        uniq.append(f)
+    out.findings = uniq
     for f in out.findings:
         if f.key in open_keys:
             known_hit.append(f)
